@@ -638,14 +638,14 @@ reg(Spec(
           "2,3,4,5,6,8,10,11,12,13,14,17,21,30,40 points (uniform, random "
           "widths, off-centre), constant or piecewise-constant positive D "
           "with jumps of 50x and 1000x, boundary values of both signs and "
-          "zero; oracle: c attains the prescribed values at both ends (1e-10 "
-          "* scale), scaling D by 2 and 3 changes c by <= 1e-9 * scale on "
+          "zero; oracle: c attains the prescribed values at both ends (1e-9 "
+          "* scale), scaling D by 2 and 3 changes c by <= 1e-6 * scale on "
           "every grid point and 4 raster points per interval, constant D gives "
-          "the straight line (1e-10 * scale). Spline potential: x^2/2 and "
+          "the straight line (1e-9 * scale). Spline potential: x^2/2 and "
           "cosh-type potentials interpolated on 21..56 points, random cubic "
           "splines on the whole grid and supported only on the middle half; "
           "oracle: the ten eigenvalues of v+c equal those of v plus c "
-          "(1e-10 relative). Harmonic oscillator and hydrogen: n+1/2 and "
+          "(1e-9 relative). Harmonic oscillator and hydrogen: n+1/2 and "
           "-1/n^2 with the suite's tolerances (1e-12, 5e-12). Distinct by "
           "full input."),
     required=["diffusion:solves", "diffusion:constant-D",
@@ -657,8 +657,9 @@ reg(Spec(
               "harmonic-oscillator:solves", "hydrogen:solves"],
     assumptions=["tolerances are metamorphic (solution against solution) and "
                  "calibrated: largest deviations observed on the unchanged "
-                 "tree are 1e-13 (boundary), 2e-12 (scaling), 2e-13 (straight "
-                 "line), 5e-14 (eigenvalue shift)", "the spline-potential "
+                 "tree over 13 000 diffusion and 2 800 potential cases are "
+                 "5e-13 (boundary), 2.7e-11 (scaling, heavy-tailed), 6.4e-13 "
+                 "(straight line), 6.5e-14 (eigenvalue shift)", "the spline-potential "
                  "solver returns ten states and therefore needs at least 21 "
                  "grid points", "accuracy against the continuous solution is "
                  "not demanded"],
